@@ -255,9 +255,35 @@ pub fn init(cfg: Config) -> &'static World {
         panic!("world initialised twice");
     }
     let w = world();
+    if w.cfg.failpoints {
+        mmtk::verif::seed_failpoints(w.cfg.seed);
+        mmtk::verif::arm_failpoint(mmtk::verif::FP_AFTER_POLL, 30);
+        mmtk::verif::arm_failpoint(mmtk::verif::FP_BEFORE_PARK, 100);
+        mmtk::verif::arm_failpoint(mmtk::verif::FP_FORWARD_WINDOW, 200);
+        mmtk::verif::arm_failpoint(mmtk::verif::FP_FORWARD_LOSER, 100);
+        mmtk::verif::arm_failpoint(mmtk::verif::FP_BLOCKQUEUE_POP, 200);
+        mmtk::verif::arm_failpoint(mmtk::verif::FP_NOTIFY, 100);
+    }
     memory_manager::initialize_collection(w.mmtk, VMThread(OpaquePointer::from_address(unsafe {
         Address::from_usize(0xffff)
     })));
+    if w.cfg.chaos {
+        // spurious condition-variable wake-ups for parked GC workers
+        std::thread::Builder::new()
+            .name("chaos".into())
+            .spawn(|| {
+                let w = world();
+                let mut x = w.cfg.seed | 1;
+                while !w.done.load(Ordering::Relaxed) {
+                    x ^= x << 13;
+                    x ^= x >> 7;
+                    x ^= x << 17;
+                    mmtk::verif::spurious_wakeup(w.mmtk, x & 1 == 0);
+                    std::thread::sleep(std::time::Duration::from_micros(50 + (x >> 8) % 2000));
+                }
+            })
+            .unwrap();
+    }
     w
 }
 
@@ -456,6 +482,7 @@ pub fn resume_mutators(_tls: VMWorkerThread) {
     w.counters.gcs.fetch_add(1, Ordering::Relaxed);
     // All GC work of this pause is done and every mutator is still parked: quiescent point.
     crate::shadow::on_pause_end();
+    check_heap_size("pause-end");
     w.stw.store(false, Ordering::SeqCst);
     let mut g = w.sp.lock().unwrap();
     if !g.stop_requested {
@@ -647,6 +674,47 @@ pub fn forward_weak_refs(
     emit(EV_FORWARD_WEAK, 0, 0, 0);
     world().gclog.lock().unwrap().forward_weak_calls += 1;
     crate::shadow::forward_weak_refs(worker, tracer_context);
+}
+
+/// C38: the heap size MMTk reports must stay within the configured bounds.
+pub fn check_heap_size(site: &str) {
+    let w = world();
+    let total = memory_manager::total_bytes(w.mmtk);
+    let page = 4096usize;
+    match w.cfg.dyn_heap {
+        Some((lo, hi)) => {
+            let (lo_b, hi_b) = (lo << 20, hi << 20);
+            if total + page <= lo_b || total >= hi_b + page {
+                violation("C38", format!("heap-size:out-of-bounds:{}", if total < lo_b { "below-min" } else { "above-max" }), format!("total_bytes() = {} at {} with DynamicHeapSize:{}m,{}m (plan {})", total, site, lo, hi, w.cfg.plan));
+            }
+            with_report("C38", |r| {
+                r.evaluations += 1;
+                r.count("dynamic_samples", 1);
+                if total == lo_b {
+                    r.count("samples_at_min", 1);
+                } else if total == hi_b {
+                    r.count("samples_at_max", 1);
+                } else {
+                    r.count("samples_interior", 1);
+                }
+                r.key(vcommon::mix(0xC38, (total >> 20) as u64));
+                if r.want_sample() {
+                    r.sample(vcommon::J::obj(vec![("plan", vcommon::J::s(w.cfg.plan.clone())), ("site", vcommon::J::s(site)), ("total_bytes", vcommon::J::i(total as u64)), ("min_mb", vcommon::J::i(lo as u64)), ("max_mb", vcommon::J::i(hi as u64))]));
+                }
+            });
+        }
+        None => {
+            let want = w.cfg.heap_mb << 20;
+            if total != want {
+                violation("C38", "heap-size:fixed-heap-changed", format!("total_bytes() = {} at {} with FixedHeapSize:{}m", total, site, w.cfg.heap_mb));
+            }
+            with_report("C38", |r| {
+                r.evaluations += 1;
+                r.count("fixed_samples", 1);
+                r.key(vcommon::mix(0xF38, w.cfg.heap_mb as u64));
+            });
+        }
+    }
 }
 
 /// Is `addr` safe to dereference as (part of) an object?  Used by the oracles before they read
